@@ -49,7 +49,7 @@ OffsetRepresentable(tokens, v) ==
 
 \* ---- date: v = [y, m, d, era, cal], tpl likewise; names usable when the culture's names are distinct -----
 DateRepresentable(tokens, v, tpl, textOk) ==
-  LET absYear == HasTok(tokens, {"uuuu", "u"})
+  LET absYear == HasTok(tokens, {"uuuu", "uuu", "uu", "u"})
       yoe == HasTok(tokens, {"yyyy"})
       era == HasTok(tokens, {"g", "gg"}) /\ textOk
       yearOk == \/ absYear
@@ -100,8 +100,8 @@ Understood(tokens, vocab) == \A i \in 1..Len(tokens) : tokens[i] \in vocab
 TimeVocab == {"H", "HH", "h", "hh", "m", "mm", "s", "ss", "t", "tt", ":", ".", " ", "'at'", "\\h", "-", "/", "'T'", ","}
              \cup {x \in {"f", "ff", "fff", "ffffff", "fffffffff", "F", "FFF", "FFFFFFFFF", ".fff", ".FFF", ";fff", ";FFFFFFFFF", ";FFF"} : TRUE}
 OffsetVocab == {"+", "-", "H", "HH", "m", "mm", "s", "ss", ":", "'x'", "\\:", " "}
-DateVocab == {"yyyy", "uuuu", "u", "M", "MM", "MMM", "MMMM", "d", "dd", "ddd", "dddd", "g", "gg", "c", "/", "-", " ", "'of'", ",", "\\d", "'T'", ":", "."}
-Numeric == {"H", "HH", "h", "hh", "m", "mm", "s", "ss", "yyyy", "uuuu", "u", "M", "MM", "d", "dd", "D", "DD", "S", "SS", "y", "yy"}
+DateVocab == {"yyyy", "uuuu", "uuu", "uu", "u", "M", "MM", "MMM", "MMMM", "d", "dd", "ddd", "dddd", "g", "gg", "c", "/", "-", " ", "'of'", ",", "\\d", "'T'", ":", "."}
+Numeric == {"H", "HH", "h", "hh", "m", "mm", "s", "ss", "yyyy", "uuuu", "uuu", "uu", "u", "M", "MM", "d", "dd", "D", "DD", "S", "SS", "y", "yy"}
            \cup {"f", "ff", "fff", "ffffff", "fffffffff", "F", "FFF", "FFFFFFFFF"}
 \* no two digit-producing fields touch (a fraction introduced by its own '.' or ';' is delimited by it)
 \* an optional fraction (F-family) may print nothing, and with ';' it accepts '.' or ',' when parsing: it must not be
